@@ -678,7 +678,8 @@ def exprOKb {D : Type} : Expr D → Bool
     typeOKb names ty && kwOKb names T kw && (getSlot kw (kName names)).isNone
   | .compose args kw => !args.isEmpty && argsOKb args && kwOKb names T kw && nameKwOKb names kw
   | .combine args kw =>
-    !args.isEmpty && argsOKb args && kwOKb names T (setSlot kw (kType names) none) && nameKwOKb names kw &&
+    !args.isEmpty && argsOKb args && kw.length == names.length &&
+    kwOKb names T (setSlot kw (kType names) none) && nameKwOKb names kw &&
     typeOKb names ((getSlot kw (kType names)).getD (.str ""))
   | .other => false
 def argsOKb {D : Type} : List (Expr D) → Bool
